@@ -88,6 +88,63 @@ def dress_call(ctx, fname, form, fn, ref, inputs, tol=1e-12, detail=None):
     return (P, sv)
 
 
+# ------------------------------------------------------------------ result aliasing across calls (keep-and-recheck / scribble / shares_memory)
+def _arrays_of(r):
+    """all ndarrays reachable from a result: arrays, tuples/lists of arrays, MarkovChain-like objects (P, state_values)"""
+    if isinstance(r, np.ndarray):
+        return [r]
+    if isinstance(r, (tuple, list)):
+        return [a for x in r for a in _arrays_of(x)]
+    if hasattr(r, "P") and hasattr(r, "state_values"):
+        return [a for a in (r.P, r.state_values) if isinstance(a, np.ndarray)]
+    return []
+
+
+def _same(a, b):
+    return a.shape == b.shape and bool(np.array_equal(a, b, equal_nan=True) if a.dtype.kind not in "fc" else np.allclose(a, b, rtol=1e-13, atol=1e-300, equal_nan=True))
+
+
+def alias_probe(ctx, fname, label, call, others=(), make=None, guards=(), inp=None):
+    """call(obj) -> result; make() -> fresh object with equal parameters (None for plain functions); others: closures making LATER calls with
+    the same shapes but different inputs (buffers are usually cached per shape); guards: closures returning arrays (attributes / arguments)
+    that must be unchanged and must not share memory with results."""
+    inp = dict(inp or {}, function=fname, aliasing=label)
+    ctx.count("alias:" + fname); ctx.case(("alias", fname, label, json.dumps(jsonable(inp), sort_keys=True)[:300]), nontrivial=True)
+    try:
+        with warnings.catch_warnings():
+            warnings.simplefilter("ignore")
+            obj = make() if make else None
+            g0 = [np.array(g(obj), copy=True) for g in guards]
+            r1 = _arrays_of(call(obj)); c1 = [np.array(a, copy=True) for a in r1]
+            for oc in others:
+                oc(obj)
+            r2 = _arrays_of(call(obj))
+            if not (len(r1) == len(r2) and all(_same(a, c) for a, c in zip(r2, c1))):
+                ctx.fail("result_changes_on_repeat", "%s (%s): a repeated call returns different values" % (fname, label), inp, [a.ravel()[:4].tolist() for a in r2][:2], [a.ravel()[:4].tolist() for a in c1][:2])
+            if not all(_same(a, c) for a, c in zip(r1, c1)):
+                ctx.fail("result_overwritten_by_later_call", "%s (%s): an array returned earlier was changed by later calls" % (fname, label), inp,
+                         [a.ravel()[:4].tolist() for a in r1][:2], [a.ravel()[:4].tolist() for a in c1][:2])
+            if any(np.shares_memory(a, b) for a in r1 for b in r2):
+                ctx.fail("results_alias_each_other", "%s (%s): results of two calls share memory" % (fname, label), inp, None, None)
+            garr = [g(obj) for g in guards]
+            if any(isinstance(g, np.ndarray) and np.shares_memory(a, g) for a in r1 + r2 for g in garr):
+                ctx.fail("result_aliases_internal_state", "%s (%s): a result shares memory with an argument / stored attribute" % (fname, label), inp, None, None)
+            # scribble over everything that was returned, then ask again (same object and a fresh one)
+            for a in r1 + r2:
+                if a.flags.writeable:
+                    a[...] = (-7 if a.dtype.kind in "iu" else -12345.678)
+            if not all(_same(np.asarray(g(obj)), s) for g, s in zip(guards, g0)):
+                ctx.fail("result_aliases_internal_state", "%s (%s): editing a returned array in place changed an argument / stored attribute" % (fname, label), inp, None, None)
+            r3 = _arrays_of(call(obj))
+            r4 = _arrays_of(call(make())) if make else r3
+            for tag, rr in (("the same object", r3), ("a fresh object with equal parameters", r4)):
+                if not (len(rr) == len(c1) and all(_same(a, c) for a, c in zip(rr, c1))):
+                    ctx.fail("result_aliases_internal_state", "%s (%s): after the caller edited a returned array in place, a later call on %s returns corrupted values" % (fname, label, tag),
+                             inp, [a.ravel()[:4].tolist() for a in rr][:2], [a.ravel()[:4].tolist() for a in c1][:2])
+    except Exception as e:      # noqa
+        ctx.fail("raises_on_admissible_input", "%s (%s) raised %s during the aliasing probe: %s" % (fname, label, type(e).__name__, str(e)[:150]), inp, type(e).__name__, "a value")
+
+
 def guarded(ctx, inp, fn):
     """run the implementation; an exception on an admissible input is itself a violation"""
     try:
@@ -465,6 +522,25 @@ def run(ctx):
             if order == "C":
                 dress_call(ctx, "fit_discrete_mc", "order_omitted", lambda: fit_discrete_mc(Xa, ga), reff, [Xa, ga], detail=[Xf, grids])
                 dress_call(ctx, "fit_discrete_mc", "order_positional", lambda: fit_discrete_mc(Xa, ga, "C"), reff, [Xa, ga], detail=[Xf, grids])
+
+    # ================= result aliasing across calls: MarkovChain.P / state_values of every entry point
+    for rep in range(5 if thorough else 3):
+        n = rng.choice([2, 5, 11]); rho, rho2 = rng.choice([0.5, -0.25, 0.9]), rng.choice([0.3, -0.6])
+        alias_probe(ctx, "tauchen", "same n, other parameters in between", lambda o: tauchen(n, rho, 1.5, 0.5, 2), others=[lambda o: tauchen(n, rho2, 0.7, -1.0, 3)],
+                    inp={"n": n, "rho": rho, "sigma": 1.5, "mu": 0.5, "n_std": 2})
+        alias_probe(ctx, "rouwenhorst", "same n, other parameters in between", lambda o: rouwenhorst(n, rho, 1.5, 0.5), others=[lambda o: rouwenhorst(n, rho2, 0.7, -1.0)],
+                    inp={"n": n, "rho": rho, "sigma": 1.5, "mu": 0.5})
+        T = rng.choice([6, 25])
+        Xa = np.array([rng.randrange(0, 3) for _ in range(T)] + [0, 1, 2, 0]); Xb = np.array([rng.randrange(0, 3) for _ in range(T)] + [2, 1, 0, 2])
+        alias_probe(ctx, "estimate_mc", "same length, other sequence in between", lambda o: estimate_mc(Xa), others=[lambda o: estimate_mc(Xb)], guards=[lambda o: Xa], inp={"X": Xa.tolist()})
+        X2a = np.array([[rng.randrange(0, 2), rng.randrange(0, 2)] for _ in range(T)] + [[0, 0], [1, 1], [0, 0]], dtype=float)
+        alias_probe(ctx, "estimate_mc", "2-d", lambda o: estimate_mc(X2a), others=[lambda o: estimate_mc(X2a[::-1].copy())], guards=[lambda o: X2a], inp={"X": X2a.tolist()})
+        g = (np.array([0.0, 1.0, 2.0]), np.array([-1.0, 1.0]))
+        Xf = np.array([[rng.randrange(-2, 7) / 2.0, rng.randrange(-4, 5) / 2.0] for _ in range(T)]); Xf[-1] = Xf[0]
+        Xg = np.array([[rng.randrange(-2, 7) / 2.0, rng.randrange(-4, 5) / 2.0] for _ in range(T)]); Xg[-1] = Xg[0]
+        for order in "CF":
+            alias_probe(ctx, "fit_discrete_mc", "order=" + order, lambda o: fit_discrete_mc(Xf, g, order=order), others=[lambda o: fit_discrete_mc(Xg, g, order=order)],
+                        guards=[lambda o: Xf, lambda o: g[0], lambda o: g[1]], inp={"X": Xf.tolist(), "grids": [x.tolist() for x in g], "order": order})
 
 
 def replay(data):
